@@ -1,33 +1,56 @@
+//! E2: generators. Source / project generator for the model-based drivers (inside the domain of
+//! DESIGN §4.3), graph generator for the scheduling drivers, hostile text for C16 / C18.
+
+use crate::model;
+use crate::util::Files;
 use rand::rngs::StdRng;
-use rand::{Rng, SeedableRng};
+use rand::Rng;
 use std::collections::BTreeMap;
 
-pub struct Case {
-    pub files: BTreeMap<String, Vec<u8>>,
-    pub trailing: bool,
-}
-
-const DIRS: [&str; 4] = ["", "sub", "sub/deep", "other"];
-const STATIC: [(&str, &str); 6] = [
+pub const DIRS: [&str; 4] = ["", "sub", "sub/deep", "other"];
+pub const STATIC: [(&str, &str); 7] = [
     ("inc_nl.txt", "alpha\nbeta\n"),
     ("inc_nonl.txt", "gamma"),
     ("inc_crlf.txt", "c1\r\nc2\r\n"),
     ("inc_empty.txt", ""),
     ("inc_multi.txt", "m1\n\nm3\n\n"),
     ("inc_look.txt", "-TXTPP#run echo no\nTAG1\n"),
+    ("inc_mixed.txt", "u1\r\nu2\nu3"),
 ];
 const PREFIXES: [&str; 7] = ["-", "// ", "/* ", "<!-- ", "\u{a7} ", "#", "-- \t"];
 const WS: [&str; 5] = ["", "  ", "\t", "    ", " \t "];
-const TEXTS: [&str; 22] = [
-    "", "plain text", "  indented text", "trailing blanks  ", "TXTPP#nonext", "x TXTPP#inclde y", "-TXTPP#run\tfoo", "TXTPP", "# TXTPP #run",
-    "use TAG1 here", "TAG2TAG1", "XY and TAG1 and XY", "\u{e9}t\u{e9} \u{2713}", "-", "//", "   ", "\t", "- dash text", "// comment text", "a TXTPP#foo TXTPP#run echo hidden",
-    "TAG", "end.",
+const TEXTS: [&str; 24] = [
+    "", "plain text", "  indented text", "trailing blanks  ", "TXTPP#nonext", "x TXTPP#inclde y", "-TXTPP#run\tfoo", "TXTPP", "# TXTPP #run", "use TAG1 here", "TAG2TAG1", "XY and TAG1 and XY",
+    "\u{e9}t\u{e9} \u{2713}", "-", "//", "   ", "\t", "- dash text", "// comment text", "a TXTPP#foo TXTPP#run echo hidden", "TAG", "end.", "TXTPP#includes x", "  TXTPP#writex",
 ];
-const OUTS: [&str; 9] = ["", "x", "x\\n", "x\\n\\n", "a\\nb\\n", "a\\r\\nb\\r\\n", "  lead\\n", "TAG1", "\\n"];
+const OUTS: [&str; 10] = ["", "x", "x\\n", "x\\n\\n", "a\\nb\\n", "a\\r\\nb\\r\\n", "  lead\\n", "TAG1", "\\n", "a\\n\\nb"];
 const TAGS: [&str; 4] = ["TAG1", "TAG2", "XY", "TAG"];
 
+#[derive(Debug, Clone)]
+pub struct GenOpts {
+    /// probability (percent) that an error case is injected per directive slot class
+    pub error_pct: u32,
+    pub max_sources: usize,
+    pub max_items: usize,
+    /// allow dotted stems in the `.txtpp.ext` shape (defect F4 territory)
+    pub dotted_middle_shape: bool,
+    /// generate `run` directives
+    pub commands: bool,
+}
+
+impl Default for GenOpts {
+    fn default() -> Self {
+        Self { error_pct: 6, max_sources: 3, max_items: 10, dotted_middle_shape: true, commands: true }
+    }
+}
+
+pub struct Project {
+    pub files: Files,
+    pub trailing: bool,
+}
+
+/// relative path from directory `from_dir` to file `to` (both relative to the root)
 pub fn rel(from_dir: &str, to: &str) -> String {
-    // relative path from directory `from_dir` to file `to` (both relative to root)
     let f: Vec<&str> = if from_dir.is_empty() { vec![] } else { from_dir.split('/').collect() };
     let t: Vec<&str> = to.split('/').collect();
     let mut k = 0;
@@ -44,54 +67,64 @@ pub fn rel(from_dir: &str, to: &str) -> String {
     parts.join("/")
 }
 
-pub fn gen(seed: u64) -> Case {
-    let mut r = StdRng::seed_from_u64(seed);
-    let mut files: BTreeMap<String, Vec<u8>> = BTreeMap::new();
-    // static files in every dir
+pub fn static_files() -> Files {
+    let mut files = Files::new();
     for d in DIRS {
         for (n, c) in STATIC {
             let p = if d.is_empty() { n.to_string() } else { format!("{d}/{n}") };
             files.insert(p, c.as_bytes().to_vec());
         }
     }
-    let nsrc = r.gen_range(1..=3);
-    let shapes = ["{}.txt.txtpp", "{}.txtpp", "{}.txtpp.md", "{}.a.b.txtpp"];
+    files
+}
+
+pub fn gen_project(r: &mut StdRng, o: &GenOpts) -> Project {
+    let mut files = static_files();
+    let nsrc = r.gen_range(1..=o.max_sources);
+    let mut shapes = vec!["{}.txt.txtpp", "{}.txtpp", "{}.txtpp.md", "{}.a.b.txtpp", "{}.\u{fc}.txtpp"];
+    if o.dotted_middle_shape {
+        shapes.push("{}.v1.txtpp.md");
+    }
     let mut srcs: Vec<(String, String)> = vec![]; // (source path, output path)
     for i in 0..nsrc {
         let d = DIRS[r.gen_range(0..DIRS.len())];
         let shape = shapes[r.gen_range(0..shapes.len())];
         let name = shape.replace("{}", &format!("s{i}"));
         let p = if d.is_empty() { name.clone() } else { format!("{d}/{name}") };
-        let out = crate::model::output_of(&p).unwrap();
+        let out = model::output_of(&p).unwrap();
         srcs.push((p, out));
     }
     for i in 0..nsrc {
         let (p, _) = srcs[i].clone();
-        let dir = crate::model::dir_of(&p).to_string();
+        let dir = model::dir_of(&p).to_string();
         let deps: Vec<String> = srcs[i + 1..].iter().map(|s| s.1.clone()).collect();
-        let is_dep = i > 0;
-        let body = gen_source(&mut r, &dir, &deps, is_dep, i);
+        let body = gen_source(r, o, &dir, &deps, i > 0, i);
         files.insert(p, body.into_bytes());
     }
-    Case { files, trailing: r.gen_bool(0.6) }
+    Project { files, trailing: r.gen_bool(0.6) }
 }
 
-fn gen_source(r: &mut StdRng, dir: &str, deps: &[String], is_dep: bool, idx: usize) -> String {
+pub fn gen_source(r: &mut StdRng, o: &GenOpts, dir: &str, deps: &[String], is_dep: bool, idx: usize) -> String {
     let crlf = r.gen_bool(0.25);
     let mixed = r.gen_bool(0.1);
-    let n = r.gen_range(0..=10);
+    let n = r.gen_range(0..=o.max_items);
     let mut ls: Vec<String> = vec![];
     let mut tmpn = 0;
+    let err = |r: &mut StdRng| r.gen_range(0..100) < o.error_pct;
     for _ in 0..n {
         let k = r.gen_range(0..100);
-        if k < 35 {
+        if k < 33 {
             ls.push(TEXTS[r.gen_range(0..TEXTS.len())].to_string());
             continue;
         }
         let ws = if r.gen_bool(0.5) { "" } else { WS[r.gen_range(0..WS.len())] };
-        let pre = if r.gen_bool(0.04) { "" } else { PREFIXES[r.gen_range(0..PREFIXES.len())] };
+        let pre = if r.gen_range(0..100) < o.error_pct / 2 { "" } else { PREFIXES[r.gen_range(0..PREFIXES.len())] };
         let head = |name: &str, arg: &str| -> String {
-            if arg.is_empty() && name.len() % 2 == 0 { format!("{ws}{pre}TXTPP#{name}") } else { format!("{ws}{pre}TXTPP#{name} {arg}") }
+            if arg.is_empty() && name.len() % 2 == 0 {
+                format!("{ws}{pre}TXTPP#{name}")
+            } else {
+                format!("{ws}{pre}TXTPP#{name} {arg}")
+            }
         };
         let cont = |r: &mut StdRng, arg: &str| -> String {
             let ascii = pre.is_ascii();
@@ -105,12 +138,12 @@ fn gen_source(r: &mut StdRng, dir: &str, deps: &[String], is_dep: bool, idx: usi
             }
         };
         match k {
-            35..=46 => {
+            33..=45 => {
                 // include
                 let t = r.gen_range(0..100);
                 let target = if t < 40 && !deps.is_empty() {
                     rel(dir, &deps[r.gen_range(0..deps.len())])
-                } else if t < 92 {
+                } else if t < 94 || !err(r) {
                     let d = DIRS[r.gen_range(0..DIRS.len())];
                     let f = STATIC[r.gen_range(0..STATIC.len())].0;
                     let p = if d.is_empty() { f.to_string() } else { format!("{d}/{f}") };
@@ -119,7 +152,7 @@ fn gen_source(r: &mut StdRng, dir: &str, deps: &[String], is_dep: bool, idx: usi
                         x = format!("./{x}");
                     }
                     x
-                } else if t < 96 {
+                } else if r.gen_bool(0.5) {
                     "missing.txt".to_string()
                 } else {
                     rel(dir, "sub") + "/"
@@ -127,25 +160,25 @@ fn gen_source(r: &mut StdRng, dir: &str, deps: &[String], is_dep: bool, idx: usi
                 let pad = if r.gen_bool(0.2) { "  " } else { "" };
                 ls.push(head("include", &format!("{pad}{target}{pad}")));
             }
-            47..=50 => {
+            46..=50 => {
                 if !deps.is_empty() {
                     ls.push(head("after", &rel(dir, &deps[r.gen_range(0..deps.len())])));
                 } else {
                     ls.push(head("after", "inc_nl.txt"));
                 }
             }
-            51..=66 => {
+            51..=66 if o.commands => {
                 // run
                 let t = r.gen_range(0..100);
-                if t < 50 {
-                    let o = OUTS[r.gen_range(0..OUTS.len())];
+                if t < 45 {
+                    let out = OUTS[r.gen_range(0..OUTS.len())];
                     if r.gen_bool(0.3) {
                         ls.push(head("run", "printf"));
-                        ls.push(cont(r, &format!("'{o}'")));
+                        ls.push(cont(r, &format!("'{out}'")));
                     } else {
-                        ls.push(head("run", &format!("printf '{o}'")));
+                        ls.push(head("run", &format!("printf '{out}'")));
                     }
-                } else if t < 70 {
+                } else if t < 65 {
                     ls.push(head("run", "echo one   two"));
                     if r.gen_bool(0.5) {
                         ls.push(cont(r, "  three"));
@@ -154,11 +187,13 @@ fn gen_source(r: &mut StdRng, dir: &str, deps: &[String], is_dep: bool, idx: usi
                             ls.push(cont(r, "four  "));
                         }
                     }
-                } else if t < 80 {
+                } else if t < 73 {
                     ls.push(head("run", "pwd -P"));
+                } else if t < 80 {
+                    ls.push(head("run", "echo \"$TXTPP_FILE\""));
                 } else if t < 88 {
                     ls.push(head("run", "cat inc_nonl.txt"));
-                } else if t < 94 {
+                } else if t < 94 || !err(r) {
                     ls.push(head("run", "true"));
                 } else {
                     ls.push(head("run", if r.gen_bool(0.5) { "exit 3" } else { "false" }));
@@ -171,28 +206,31 @@ fn gen_source(r: &mut StdRng, dir: &str, deps: &[String], is_dep: bool, idx: usi
                 // temp
                 tmpn += 1;
                 let t = r.gen_range(0..100);
-                let target = if t < 70 {
-                    format!("t{idx}_{tmpn}.tmp")
-                } else if t < 80 && !dir.is_empty() {
-                    format!("../t{idx}_{tmpn}.tmp")
-                } else if t < 88 && dir.is_empty() {
-                    format!("sub/t{idx}_{tmpn}.tmp")
-                } else if t < 93 {
+                let bad = err(r);
+                let target = if bad && t < 40 {
                     format!("t{idx}_{tmpn}.txtpp")
-                } else if t < 96 {
+                } else if bad && t < 70 {
                     format!("nodir/t{idx}_{tmpn}.tmp")
-                } else {
+                } else if bad {
                     format!("t{idx}_{tmpn}.x.txtpp")
+                } else if t < 75 {
+                    format!("t{idx}_{tmpn}.tmp")
+                } else if t < 88 && !dir.is_empty() {
+                    format!("../t{idx}_{tmpn}.tmp")
+                } else if dir.is_empty() {
+                    format!("sub/t{idx}_{tmpn}.tmp")
+                } else {
+                    format!("./t{idx}_{tmpn}.tmp")
                 };
                 ls.push(head("temp", &target));
                 let nb = r.gen_range(0..4);
                 for _ in 0..nb {
-                    let b = ["body line", "", "  indented body", "TXTPP#run echo inert", "\u{e9}"][r.gen_range(0..5)];
+                    let b = ["body line", "", "  indented body", "TXTPP#run echo inert", "\u{e9}", "TAG1"][r.gen_range(0..6)];
                     ls.push(cont(r, b));
                 }
-                if t < 70 && r.gen_bool(0.5) {
+                if !bad && t < 75 && r.gen_bool(0.5) {
                     ls.push("".into());
-                    if r.gen_bool(0.5) {
+                    if r.gen_bool(0.5) || !o.commands {
                         ls.push(head("include", &target));
                     } else {
                         ls.push(head("run", &format!("cat {target}")));
@@ -204,12 +242,12 @@ fn gen_source(r: &mut StdRng, dir: &str, deps: &[String], is_dep: bool, idx: usi
                 let tag = TAGS[r.gen_range(0..TAGS.len())];
                 ls.push(head("tag", tag));
                 let t = r.gen_range(0..100);
-                if t < 85 {
+                if t < 97 || !err(r) {
                     if r.gen_bool(0.3) {
                         ls.push(head("", "just a comment"));
                     }
                     match r.gen_range(0..3) {
-                        0 => {
+                        0 if o.commands => {
                             ls.push(head("run", &format!("printf '{}'", OUTS[r.gen_range(0..OUTS.len())])));
                             if r.gen_bool(0.7) {
                                 ls.push("".into());
@@ -224,8 +262,8 @@ fn gen_source(r: &mut StdRng, dir: &str, deps: &[String], is_dep: bool, idx: usi
                             }
                         }
                     }
-                    if t < 75 {
-                        let u = [format!("<{tag}>"), format!("{tag}"), format!("a {tag} b {tag} c"), format!("{tag}XY")];
+                    if t < 90 || !err(r) {
+                        let u = [format!("<{tag}>"), tag.to_string(), format!("a {tag} b {tag} c"), format!("{tag}XY")];
                         if r.gen_bool(0.3) {
                             ls.push("spacer".into());
                         }
@@ -263,4 +301,151 @@ fn gen_source(r: &mut StdRng, dir: &str, deps: &[String], is_dep: bool, idx: usi
         }
     }
     s
+}
+
+// ------------------------------------------------------------------------------------ graphs
+
+/// A dependency graph project: files f0..f(n-1); adj[i] = list of (j, edge kind)
+#[derive(Debug, Clone, PartialEq)]
+pub enum EdgeKind {
+    Include,
+    /// `after fj` + `run cat fj` (optionally logging what it saw)
+    AfterCat,
+}
+
+#[derive(Debug, Clone)]
+pub struct Graph {
+    pub n: usize,
+    pub edges: Vec<Vec<(usize, EdgeKind)>>,
+}
+
+impl Graph {
+    /// from an adjacency bitmask: bit (i*n + j) set = edge i -> j
+    pub fn from_mask(n: usize, mask: u64, kinds: u64) -> Self {
+        let mut edges = vec![vec![]; n];
+        for i in 0..n {
+            for j in 0..n {
+                if mask >> (i * n + j) & 1 == 1 {
+                    let kind = if kinds >> (i * n + j) & 1 == 1 { EdgeKind::AfterCat } else { EdgeKind::Include };
+                    edges[i].push((j, kind));
+                }
+            }
+        }
+        Self { n, edges }
+    }
+    pub fn succ(&self, i: usize) -> Vec<usize> {
+        self.edges[i].iter().map(|e| e.0).collect()
+    }
+    /// reach[i] = set of vertices reachable from i (including i)
+    pub fn reach(&self, i: usize) -> Vec<bool> {
+        let mut seen = vec![false; self.n];
+        let mut st = vec![i];
+        seen[i] = true;
+        while let Some(x) = st.pop() {
+            for y in self.succ(x) {
+                if !seen[y] {
+                    seen[y] = true;
+                    st.push(y);
+                }
+            }
+        }
+        seen
+    }
+    /// does vertex i lie on a cycle (self loop or longer)?
+    pub fn on_cycle(&self, i: usize) -> bool {
+        self.succ(i).iter().any(|&j| self.reach(j)[i])
+    }
+    /// can i reach some cycle?
+    pub fn reaches_cycle(&self, i: usize) -> bool {
+        let r = self.reach(i);
+        (0..self.n).any(|v| r[v] && self.on_cycle(v))
+    }
+    pub fn is_acyclic(&self) -> bool {
+        (0..self.n).all(|i| !self.on_cycle(i))
+    }
+}
+
+pub fn graph_name(i: usize) -> String {
+    format!("f{i}.txt")
+}
+
+/// Sources for a graph. Directive prefixes alternate (`-` for include/after, `#` for the cat
+/// command, `//` for the marker) so that no run block can swallow the following line as a
+/// continuation. Every file has a unique head and tail token line
+/// `<name>:g<generation>:<nonce>`; `marker_log` adds a once-per-execution marker command after the
+/// dependency directives (and, in a dependency-free file, at the top); `obs_log` makes
+/// AfterCat edges log the checksum of what they saw.
+pub fn graph_files(g: &Graph, generation: u32, nonce: u64, marker_log: Option<&str>, obs_log: Option<&str>, dup_edges: bool) -> Files {
+    let mut files = Files::new();
+    for i in 0..g.n {
+        let name = graph_name(i);
+        let mut s = format!("{name}:head:g{generation}:{nonce:x}\n");
+        for (j, kind) in &g.edges[i] {
+            let dep = graph_name(*j);
+            match kind {
+                EdgeKind::Include => {
+                    s.push_str(&format!("-TXTPP#include {dep}\n"));
+                    if dup_edges {
+                        s.push_str(&format!("-TXTPP#include ./{dep}\n"));
+                    }
+                }
+                EdgeKind::AfterCat => {
+                    s.push_str(&format!("-TXTPP#after {dep}\n"));
+                    match obs_log {
+                        Some(log) => s.push_str(&format!("#TXTPP#run cat {dep}; echo {name} saw {dep} $(cksum < {dep}) >> {log}\n")),
+                        None => s.push_str(&format!("#TXTPP#run cat {dep}\n")),
+                    }
+                }
+            }
+        }
+        if let Some(log) = marker_log {
+            s.push_str(&format!("//TXTPP#run echo {name} >> {log}\n"));
+        }
+        s.push_str(&format!("{name}:tail:g{generation}:{nonce:x}\n"));
+        files.insert(format!("{name}.txtpp"), s.into_bytes());
+    }
+    files
+}
+
+/// number of labelled digraphs (with self loops) on n vertices = 2^(n*n)
+pub fn digraph_count(n: usize) -> u64 {
+    1u64 << (n * n)
+}
+
+// ------------------------------------------------------------------------------- hostile text
+
+pub const HOSTILE: [&str; 40] = [
+    "TXTPP#", "TXTPP#run echo hi", "-TXTPP#", "-TXTPP#include x", "TXTPP#write", "TXTPP#writ", "TXTPP#tag", "TXTPP#tags T", "TXTPP#temp", "TXTPP#after", "TXTPP#run\techo", "TXTPP# ", " TXTPP#", "\tTXTPP#run", "//", "// ",
+    "/*", "<!-- ", "-", "#", "TAG1", "TAG", "T", "XY", " ", "  ", "\t", "x", "word", "\u{e9}", "\u{2713}", "\u{a7} ", ".", "TXTPP", "#run", "include", "run", "$(echo no)", "`echo no`", "\\n",
+];
+
+pub fn hostile_line(r: &mut StdRng, allow_lead_blank: bool, allow_trail_blank: bool) -> String {
+    let n = r.gen_range(0..=6);
+    let mut s = String::new();
+    for _ in 0..n {
+        s.push_str(HOSTILE[r.gen_range(0..HOSTILE.len())]);
+    }
+    let blank = |c: char| c == ' ' || c == '\t';
+    let mut t = s.as_str();
+    if !allow_lead_blank {
+        t = t.trim_start_matches(blank);
+    }
+    if !allow_trail_blank {
+        t = t.trim_end_matches(blank);
+    }
+    t.to_string()
+}
+
+pub fn join_lines(ls: &[String], crlf: bool, final_nl: bool) -> String {
+    let le = if crlf { "\r\n" } else { "\n" };
+    let mut s = ls.join(le);
+    if final_nl && !ls.is_empty() {
+        s.push_str(le);
+    }
+    s
+}
+
+/// name -> count helper for coverage
+pub fn bump(m: &mut BTreeMap<String, u64>, k: &str) {
+    *m.entry(k.to_string()).or_insert(0) += 1;
 }
